@@ -134,6 +134,7 @@ class Interp:
         self.globals_cls = globals_cls or {}
         self._containers = None
         self.extra_elems: dict = {}  # container name -> element class contributed by callees
+        self.alterations: list = []  # (call, stmt): a client value rewritten by something other than the sink's escaping
 
     # ---- containers: flow-insensitive element classes -----------------
     def container_elems(self, name: str):
@@ -390,13 +391,17 @@ class Interp:
                 if isinstance(a, ast.Constant) and isinstance(b, ast.Constant) and a.value == "'" and b.value == "''":
                     return SQD if r in (RAW, SQD, HEX, CONST, FRAG) else UNKNOWN
                 rb = sub(b)
+                if r in (RAW, SQD, HEX):
+                    self.alterations.append((c, stmt))
                 if r in (CONST, FRAG) and rb in (CONST, FRAG, INT):
                     return FRAG
                 return join(r, rb) if r in BAD or rb in BAD else r
             if meth == "format":
                 return self.format_call(c, stmt, bound)
-            if meth in ("lower", "upper", "strip", "lstrip", "rstrip", "title", "casefold"):
+            if meth in ("lower", "upper", "strip", "lstrip", "rstrip", "title", "casefold", "translate", "removeprefix", "removesuffix"):
                 r = sub(recv)
+                if r in (RAW, SQD, HEX):
+                    self.alterations.append((c, stmt))
                 return r if r in (RAW, UNKNOWN, CONST, INT) else (HEX if r == HEX and meth in ("lower", "strip", "lstrip", "rstrip") else RAW)
             if meth in ("get", "pop") and isinstance(recv, ast.Name) and recv.id in self.globals_cls:
                 return elem(self.globals_cls[recv.id])
